@@ -134,6 +134,12 @@ def o3(h, st):
     h.check("kept keys", set(hist.counts) == set(exp))
     for kk in exp:
         h.check_close(f"count of {kk!r}", hist.counts[kk], exp[kk])
+    hist_m = h.call(H, "Histogram", {k[::-1]: v for k, v in d.items()}, 0, True)
+    h.call(H, "Histogram.post_select", hist_m, dict(expected))
+    h.check("msq-first construction, then post_select: kept keys", set(hist_m.counts) == set(exp), detail=f"{sorted(hist_m.counts)} vs {sorted(exp)}")
+    for kk in exp:
+        if kk in hist_m.counts:
+            h.check_close(f"msq-first construction, then post_select: count of {kk!r}", hist_m.counts[kk], exp[kk])
     before = snapshot(d)
     fr = h.call(PS, "post_select", d, dict(expected))
     h.check("frequency dictionary argument unchanged", snapshot(d) == before)
@@ -492,8 +498,11 @@ def o12_structures(tier):
     for seq in itertools.product(HIST_OPS, repeat=L):
         if not any(o in ("post_select", "remove", "iadd") for o in seq):
             continue
-        sts.append({"n": 3, "ops": list(seq)})
-    return sts if tier != "quick" else sts[::2]
+        sts.append({"n": 3, "ops": list(seq), "msq": False})
+    # the same histories on an object CONSTRUCTED from msq-first data (keys reversed, msq_first=True): the stored convention is lsq-first whatever the input
+    # convention was, so every later operation must behave exactly as on the lsq-first construction
+    msq = [{**s, "msq": True} for s in sts]
+    return sts + msq if tier != "quick" else sts[::2] + msq[1::4]
 
 
 @contract("C18", "O12.Histogram.histories", level="S", structures=o12_structures, native_samples=lambda st, rnd, tier: count_samples(st, rnd, tier, prefixes=("v", "w")),
@@ -507,7 +516,10 @@ def o12(h, st):
     n = st["n"]
     d = sym_counts(h, n)
     wsym = sym_counts(h, n, prefix="w")       # counts of the histograms added along the history (declared up front so that every counter-model is complete)
-    hist = h.call(H, "Histogram", dict(d))
+    if st.get("msq"):
+        hist = h.call(H, "Histogram", {k[::-1]: v for k, v in d.items()}, 0, True)
+    else:
+        hist = h.call(H, "Histogram", dict(d))
     cur = dict(d)              # specification state: the counts the object must hold
     width = n
     step = 0
@@ -533,7 +545,7 @@ def o12(h, st):
             width -= 1
         elif op == "iadd":
             other = {k: wsym[k.rjust(n, "0")] for k in cur}
-            o2 = h.call(H, "Histogram", dict(other))
+            o2 = h.call(H, "Histogram", {k[::-1]: v for k, v in other.items()}, 0, True) if st.get("msq") else h.call(H, "Histogram", dict(other))
             hist = h.I.augop(__import__("ast").Add, hist, o2) if h.symbolic else hist.__iadd__(o2)
             cur = {k: cur[k] + other[k] for k in cur}
         elif op == "expectation":
